@@ -175,7 +175,11 @@ def finish(ctx, level="exploration", floor_eval=1, floor_nt=2):
     lines = []
     for prop, key, text, v in known_hit:
         lines.append("KNOWN-FINDING: property=%s key=%s %s (seen %d times)" % (prop, key, text, v["count"]))
-    for prop, key, v in new:
+    new.sort(key=lambda t: (t[1] == "(more)", -t[2]["count"]))
+    for n_printed, (prop, key, v) in enumerate(new):
+        if n_printed >= 12:
+            lines.append("  ... and %d more distinct violation keys (see evidence file)" % (len(new) - 12))
+            break
         rp = os.path.join("replays", "%s-%s-%s.json" % (prop, ctx.tier, "%016x" % h64(key)))
         with open(os.path.join(env.VERIF_DIR, rp), "w") as f:
             json.dump(
